@@ -133,6 +133,11 @@ type Call struct {
 	Completed    bool
 	task         *kern.Task
 	req, reply   *Msg
+	// what was actually handed to the interceptor (C12: the picker must find
+	// exactly these in the call context)
+	sentReq, sentReply interface{}
+	Chained            bool // the caller's context derives from an earlier intercepted call's context
+	peekBad            string
 }
 
 //go:norace
@@ -166,6 +171,7 @@ type Sim struct {
 	opIdx        int
 	coreQueued   int
 	healing      bool
+	lastCallCtx  context.Context
 	degraded     bool // a SHUTDOWN for a live pool connection was delivered: crash/progress oracles only
 	resolverSent bool
 	keySeq       uint64
@@ -362,6 +368,20 @@ func (s *Sim) settle() { s.k.Quiesce() }
 //go:norace
 func (s *Sim) afterOp() {
 	s.drain()
+	for _, c := range s.calls {
+		if c.peekBad != "" && !s.stop {
+			facts := "unary"
+			if c.Stream {
+				facts = "stream"
+			}
+			if c.Chained {
+				facts += "|chained-ctx"
+			}
+			s.vio("C12", "picker-context-wrong", facts, fmt.Sprintf("call %d %s: %s (the interceptor must hand this call's own request%s to the picker)", c.ID, c.MethodName, c.peekBad, map[bool]string{true: " - the first message sent", false: " and reply objects"}[c.Stream]))
+			c.peekBad = ""
+			s.stop = true
+		}
+	}
 	s.checkKernel()
 	if !s.conc {
 		s.checkQuiescent()
@@ -736,6 +756,8 @@ func (s *Sim) resolveConnEvent(sc *FakeSC, o Op) (connectivity.State, bool) {
 			s.env.Fired["odd_state_report"]++
 			return st, true
 		}
+	}
+	if (o.F&FlagOdd != 0 && !s.plan.Legal && o.C%5 == 4 || o.B == ConnShutdown) && !sc.Removed && !sc.ShutdownSent {
 		if s.plan.LiveShutdown && !s.conc && !s.healing {
 			// Outside what grpc-go does, inside what C05 quantifies over ("state
 			// reports ... in any order"): from here on the run is judged for
@@ -744,7 +766,7 @@ func (s *Sim) resolveConnEvent(sc *FakeSC, o Op) (connectivity.State, bool) {
 			s.env.Fired["shutdown_of_live_connection"]++
 			s.degraded = true
 			s.model.track, s.model.degraded = true, true
-			return st, true
+			return connectivity.Shutdown, true
 		}
 	}
 	if sc.Removed {
@@ -834,6 +856,13 @@ func (s *Sim) startCall(i int, o Op) {
 	c.reply = &Msg{}
 	c.waiter.Note = fmt.Sprintf("call %d in flight", c.ID)
 	base := context.Background()
+	if o.F&FlagChain != 0 && s.lastCallCtx != nil && !c.NoGCP {
+		// a context derived from an earlier intercepted call (e.g. from
+		// stream.Context()): values kept, cancellation dropped
+		base = context.WithoutCancel(s.lastCallCtx)
+		c.Chained = true
+		s.env.Fired["ctx_derived_from_earlier_call"]++
+	}
 	switch o.D {
 	case 1:
 		d := time.Duration(o.E) * time.Millisecond
@@ -929,6 +958,10 @@ func (s *Sim) callBody(c *Call) {
 			req = int32(7)
 		}
 	}
+	c.sentReq, c.sentReply = req, reply
+	if c.Stream {
+		c.sentReply = nil // the stream path has no reply object at pick time
+	}
 	invoker := func(ctx context.Context, method string, rq, rp interface{}, cc *grpc.ClientConn, opts ...grpc.CallOption) error {
 		return s.pickAndWait(ctx, c)
 	}
@@ -985,6 +1018,18 @@ func (s *Sim) pick(ctx context.Context, c *Call) error {
 	picker := pubs[idx].Picker
 	s.env.pubMu.Unlock()
 	c.Invoked = true
+	s.lastCallCtx = ctx
+	if !c.NoGCP && grpcgcp.VerifPeekSupported {
+		rq, rp, ok := grpcgcp.VerifPeekGCPContext(ctx)
+		switch {
+		case !ok:
+			c.peekBad = "no picker context in the call's context"
+		case rq != c.sentReq:
+			c.peekBad = "the picker context carries another request object"
+		case rp != c.sentReply:
+			c.peekBad = "the picker context carries another reply object"
+		}
+	}
 	c.InvokeSeq = s.env.add(Event{Kind: EvPickInvoke, Conn: -1, Call: c.ID, Pub: idx, Note: s.lazyNote(func() string { return fmt.Sprintf("%s keys=%v pub=%d", c.MethodName, c.ReqKeys, idx) })})
 	var res balancer.PickResult
 	var err error
@@ -1106,6 +1151,12 @@ func (s *Sim) heal() {
 	if s.stop {
 		return
 	}
+	if s.conc {
+		s.preHealKeyProbe(i)
+		if s.stop {
+			return
+		}
+	}
 	s.healConnsAndCalls(i)
 	if s.stop || len(s.env.Pubs) == 0 {
 		return
@@ -1193,6 +1244,59 @@ func (s *Sim) heal() {
 	for _, c := range held {
 		if c.InFlight && !s.stop {
 			s.finishCall(i, c, OutAppErr, nil)
+			s.k.Quiesce()
+			s.afterOp()
+		}
+	}
+}
+
+// preHealKeyProbe: the burst has quiesced but nothing has been healed yet, so
+// some channels may be down. With fallback enabled, whatever interleaving the
+// burst took, a keyed call on the latest picker that is placed at all is placed
+// on a connection that is READY (home, recorded stand-in or a fresh stand-in)
+// as long as some pool connection is READY: a stand-in entry pointing at a
+// channel that has left READY is exactly what C08 excludes.
+//
+//go:norace
+func (s *Sim) preHealKeyProbe(i int) {
+	c := s.plan.Cfg
+	if !c.Fallback || !s.plan.Legal || c.NilCfg || c.NilPool || c.RR || int(c.Locator) >= nGoodLocators || len(s.env.Pubs) == 0 || s.model.cBound == nil {
+		return
+	}
+	var keys []string
+	for k := range s.model.cBound {
+		if k != "" && !s.model.cDropped[k] {
+			keys = append(keys, k)
+		}
+	}
+	sortStrings(keys)
+	if len(keys) > 3 {
+		keys = keys[:3]
+	}
+	for _, k := range keys {
+		anyReady := false
+		for _, sc := range s.env.Conns {
+			if !sc.Removed && !sc.ShutdownSent && sc.Truth == connectivity.Ready && sc.CreatedPhase != PhDone {
+				anyReady = true
+			}
+		}
+		if !anyReady || s.stop {
+			return
+		}
+		p := s.probeCall(i, MBound, []string{k})
+		if s.stop {
+			return
+		}
+		s.res.Count("probe:concurrent_preheal_keyed_probe", 1)
+		if p.Res.Kind == ResPlaced && p.Res.Conn >= 0 && p.Res.Conn < len(s.env.Conns) {
+			if sc := s.env.Conns[p.Res.Conn]; sc.Truth != connectivity.Ready {
+				s.vio("C08", "stand-in-not-ready", "concurrent", fmt.Sprintf("after a concurrent run, at quiescence, with fallback enabled and a READY connection in the pool, call %d /svc/Bound for key %q was placed on sc%d, which last reported %v", p.ID, k, sc.ID, sc.Truth))
+				s.stop = true
+				return
+			}
+		}
+		if p.InFlight {
+			s.finishCall(i, p, OutAppErr, nil)
 			s.k.Quiesce()
 			s.afterOp()
 		}
@@ -1347,6 +1451,23 @@ func (s *Sim) enterSerial() bool {
 //go:norace
 func (s *Sim) healConcurrent(i int) {
 	c := s.plan.Cfg
+	// C20, schedule-independent: everything has quiesced, so every resolver
+	// update has returned; whatever interleaving the burst took, every live
+	// connection - pool member, growth connection or pending replacement - holds
+	// the most recently resolved list.
+	if la := s.model.lastAddrs; la != "" {
+		for _, sc := range s.env.Conns {
+			if sc.Removed || sc.ShutdownSent {
+				continue
+			}
+			s.res.Count("probe:concurrent_conn_addrs_checked", 1)
+			if sc.Addrs != la {
+				s.vio("C20", "conn-stale-addrs", "concurrent", fmt.Sprintf("after a concurrent run, at quiescence, live connection sc%d (created in phase %v) holds %s, the most recently resolved list is %s", sc.ID, sc.CreatedPhase, sc.Addrs, la))
+				s.stop = true
+				return
+			}
+		}
+	}
 	if !s.plan.Legal || c.NilCfg || c.NilPool || c.WM == 0 || c.WM > 3 {
 		return
 	}
